@@ -35,13 +35,24 @@ def _finding_keys(root: str, rule_names: list[str]):
     repo = Repo(Path(root))
     keys = set()
     errors = []
+    ok = set()
+    results = []
     for n in rule_names:
         try:
             r = run_rule(n, repo)
-            for f in r.findings:
-                keys.add((f.rule, f.key))
+            results.append(r)
         except AnalysisError as e:
             errors.append(f"{n}: {e}")
+        else:
+            ok.add(n)
+    from .registry import apply_cover, apply_demote
+
+    apply_demote(results, repo)
+    for r in results:
+        for f in r.findings:
+            keys.add((f.rule, f.key))
+
+    errors, _tolerated = apply_cover(errors, ok, repo)
     return keys, errors
 
 
